@@ -57,9 +57,10 @@ class Check:
     shrink_runs = 250
     rule = ('scenario = generated option project (top + subproject; string/boolean/integer/combo/array/feature options, a yielding '
             'option, built-ins and per-subproject built-in overrides) + a history of 2-12 lifecycle steps (setup, configure -D, '
-            'configure -U, setup --reconfigure [-D], setup --wipe, option-file edits: add/remove/narrow/widen/default/range) with '
+            'configure -U, setup --reconfigure [-D], setup --wipe, option-file edits: add/remove/rename/narrow/widen/default/range) with '
             'injected failures (invalid value, unknown option, armed error() in a build file, OSError at the k-th storage call); '
-            'after every step the values a reconfiguration reports (get_option) are compared with the reference model. Non-trivial: '
+            'after every step the values a reconfiguration reports (get_option) and the set of project options it leaves in '
+            'intro-buildoptions.json are compared with the reference model. Non-trivial: '
             '>=3 steps including >=1 state-changing step after the first setup, or an injected failure fired. Distinct by hash of '
             '(op-kind sequence, which options were assigned).')
     interleaving_measure = 'hash of the op-kind sequence incl. failure kinds'
@@ -280,6 +281,14 @@ class Check:
         try:
             r = M.meson(['setup', '--reconfigure', bd, sd], capture=os.path.join(root, f'obs-{tag}.log'), env=child_env(), timeout=120)
             rc = r['value'] if r['ok'] else 99
+            self.last_declared = None
+            if rc == 0:
+                # the set of project options the directory now holds ("a removed one vanishes")
+                try:
+                    with open(os.path.join(bd, 'meson-info', 'intro-buildoptions.json'), encoding='utf-8') as f:
+                        self.last_declared = sorted(e['name'] for e in json.load(f) if e.get('section') == 'user')
+                except (OSError, ValueError, KeyError):
+                    self.last_declared = None
             return rc, opt_lines(r['out']), r['out'] + ('' if r['ok'] else str(r['exc']))
         finally:
             shutil.rmtree(bd, ignore_errors=True)
@@ -404,6 +413,14 @@ class Check:
                 lastfault = sc['steps'][si].get('fault') if sc['steps'][si]['op'] != 'edit' else None
                 what = f'after step {si} {kinds[-1]} ({json.dumps({k: sc["steps"][si].get(k) for k in ("D", "U", "edit") if sc["steps"][si].get(k)})[:300]})'
                 v = self.compare(vals, m.effective(), what, 'after:' + kinds[-1], trace, faults, probes)
+                if v is None and self.last_declared is not None:
+                    want_decl = sorted(list(m.files['top'] or {}) + [f'{P.SUB}:{n}' for n in (m.files['sub'] or {})])
+                    if want_decl != self.last_declared:
+                        add(probes, 'declared-set-mismatch')
+                        v = R.violation('declared-set-mismatch', f'{what}: after a reconfiguration the directory holds project options '
+                                        f'{sorted(set(self.last_declared) - set(want_decl))} that no option file declares / lacks '
+                                        f'{sorted(set(want_decl) - set(self.last_declared))} that one does',
+                                        f'declared-set-mismatch:after:{kinds[-1]}', trace=trace, faults=faults, probes=probes)
                 if v is not None:
                     if failed_step:
                         v['vclass'] = 'failed-step-changed-values'
